@@ -416,6 +416,15 @@ def select_cases(tier: str, seed: int, salt: str = "C01", quick_total: int = 150
                     s[b] = vb
                     add(pool[k % len(pool)], s)
                     k += 1
+    # longest-expected-first scheduling (deterministic): the assignment language and unsatisfiable /
+    # SMT-heavy templates dominate the wall clock, so they are started first
+    def weight(c):
+        w = 3 if c["grammar"] == "assgn" else 0
+        w += 2 if c["expect"] == "unsat" else 0
+        w += 1 if family(c["cls"]).startswith(("smt", "match")) else 0
+        return -w
+
+    cases.sort(key=weight)
     info = dict(templates=len(TEMPLATES), grid_points=len(grid),
                 full_grid_solver_objects=len(grid) * len(TEMPLATES), selected=len(cases))
     return cases, info
